@@ -38,6 +38,9 @@ RvDecidable(rv) ==
           /\ (x.k = "num" /\ x.cls = "fin" => F64Class(F64OfNumeral(x.numeral)) = "fin")
           /\ (x.k = "coord" => F64Class(F64OfNumeral(x.lat)) = "fin" /\ F64Class(F64OfNumeral(x.lng)) = "fin")
           /\ (x.k = "grid" => Len(x.cols) >= 1 /\ \A i, j \in 1..Len(x.cols) : i # j => x.cols[i].name # x.cols[j].name)
+          \* an empty line inside a one-column grid: a row without cells by the row production, the end of the grid by every
+          \* reader - the grammar is ambiguous there (the recorded finding zinc-single-column-empty-row), no claim is made
+          /\ (x.k = "grid" /\ Len(x.cols) = 1 => \A r \in 1..Len(x.rows) : x.rows[r] # <<>>)
 RECURSIVE NoDupMembers(_)
 NoDupMembers(t) ==
     CASE t.j = "obj" -> /\ \A i, j \in 1..Len(t.mem) : i # j => t.mem[i][1] # t.mem[j][1]
